@@ -532,6 +532,23 @@ func c04Witness(c *Ctx) {
 			c04Scenario(c, ps, c04KeyCfg{lq: 1, lp: nP - 1, w: w}, false)
 		}
 	}
+	// second and third witnesses: a key WITHOUT P and BaseTwoDecomposition = 0 over two primes
+	// (a) the parameters have no P at all: every RNS digit is read from row 0;
+	// (b) the parameters have a P but the key is generated at LevelP = -1: GadgetProduct panics.
+	Q2, P2, ok := c04Primes(4, []int{31, 33}, []int{35})
+	if !ok {
+		return
+	}
+	if ps, err := c04NewPS(4, Q2, nil, true); err == nil {
+		c.Count("witness:noP:w0")
+		c04Scenario(c, ps, c04KeyCfg{lq: 1, lp: -1, w: 0}, false)
+	}
+	if ps, err := c04NewPS(4, Q2, P2, true); err == nil {
+		for _, w := range []int{0, 12} {
+			c.Count(fmt.Sprintf("witness:P-present-key-levelP-1:w%d", w))
+			c04Scenario(c, ps, c04KeyCfg{lq: 1, lp: -1, w: w}, false)
+		}
+	}
 }
 
 // ---------------------------------------------------------------------------------------------
